@@ -201,10 +201,89 @@ pub fn exec(plan: &Plan) -> Outcome {
             }
         }
     }
+    if out.violation.is_none() {
+        composite_positions(&mut gen, &mut rng, &mut out, &mut stats, &mut digest, &mut evals);
+    }
     out.stats = stats;
     out.digest = digest.0;
     out.oracle_evals = evals;
     out
+}
+
+/// The same tables read in whole positions: every piece of a colour at once, both colours,
+/// in set-up positions and along seeded games (so also while that colour is giving check,
+/// which is when the engine itself asks), with one long-lived generator. The reported map
+/// must be the union of the per-piece walks; squares holding the colour's own pieces are
+/// left out of the comparison (the engine's convention there is not part of the property),
+/// and so are the squares next to the colour's pawns (pawn attacks are not C11's subject).
+fn composite_positions(gen: &mut MoveGenerator, rng: &mut Rng, out: &mut Outcome, stats: &mut Stats, digest: &mut Digest, evals: &mut u64) {
+    use crate::eng::{build_board, color};
+    use crate::gen::{choose_move, choose_start, random_setup, Policy, StartKind};
+    use crate::model::{Pos, Side};
+    set_phase("tables-composite");
+    let mut check_one = |pos: &Pos, gen: &mut MoveGenerator, out: &mut Outcome, stats: &mut Stats, digest: &mut Digest, evals: &mut u64| -> bool {
+        let board = build_board(pos, None);
+        for side in [Side::White, Side::Black] {
+            let mut want = 0u64;
+            let mut own = 0u64;
+            for s in 0..64u8 {
+                if let Some((p, c)) = pos.sq[s as usize] {
+                    if c == side {
+                        own |= 1u64 << s;
+                        want |= pos.piece_attacks(s);
+                        if p == crate::model::P::Pawn {
+                            // the property speaks about rooks, bishops, queens, knights and kings: squares
+                            // a pawn of this colour bears on (also across the board edge) are left out
+                            for d in [7i16, 9, -7, -9] {
+                                let t = s as i16 + d;
+                                if (0..64).contains(&t) {
+                                    own |= 1u64 << t;
+                                }
+                            }
+                        }
+                    }
+                }
+            }
+            let got = gen.get_attack_targets(&board, color(side)).0;
+            *evals += 1;
+            stats.bump("cases/composite-position");
+            if pos.in_check(side.other()) {
+                stats.bump("probe/composite-map-of-a-side-giving-check");
+            }
+            digest.eat(got & !own);
+            if (got & !own) != (want & !own) {
+                out.violation = Some(Violation {
+                    class: format!("C11/attack-map-wrong/composite-position/{}", if got & !own & !want != 0 { "extra-squares" } else { "missing-squares" }),
+                    detail: format!("{}: squares attacked by {:?} reported {:016x}, per-piece walks {:016x} (own-occupied squares masked)", pos.to_fen(), side, got & !own, want & !own),
+                    at_op: 0,
+                });
+                return false;
+            }
+        }
+        true
+    };
+    for _ in 0..12 {
+        let extra = rng.range(0, 14) as usize;
+        let pos = random_setup(rng, extra);
+        if !check_one(&pos, gen, out, stats, digest, evals) {
+            return;
+        }
+    }
+    for _ in 0..3 {
+        let (_, mut pos) = choose_start(rng, &[(StartKind::Initial, 2), (StartKind::Special, 3), (StartKind::Endgame, 2), (StartKind::Random, 2)]);
+        let policy = *rng.pick(&[Policy::Hunt, Policy::Spicy, Policy::Uniform]);
+        for _ in 0..rng.range(10, 40) {
+            let legal = pos.legal_moves();
+            if legal.is_empty() {
+                break;
+            }
+            let k = choose_move(rng, &pos, &legal, policy, None);
+            pos = pos.make(&legal[k]);
+            if !check_one(&pos, gen, out, stats, digest, evals) {
+                return;
+            }
+        }
+    }
 }
 
 /// Build-configuration probe through the public API only: every key constant read black-box from
